@@ -9,8 +9,8 @@
    defects repaired in this area are the refutation witnesses.  Cycle detection,
    GC interaction and stack growth are observed by the harness (normal and
    checkptr builds). *)
-From Coq Require Import List Bool Arith.
-From GJ Require Import Gen.Frames Model.Frames Proofs.FramesP.
+From Coq Require Import List Bool Arith ZArith.
+From GJ Require Import Gen.Frames Model.Frames Proofs.FramesP Gen.Tables Model.Cycle Proofs.CycleP.
 Import ListNotations.
 
 Theorem C08_source_constants_ok : consts_ok the_consts /\ vm_push_shapes_ok = true /\ top_iface_len_is_total = true.
@@ -35,3 +35,23 @@ Example C08_ex :
       (stack the_consts {| f_kind := KTop; f_base := 0; f_len := 6; f_end := 5 |} [PRec 4 3; PIface 5 4; PRec 4 3])
   = [(0, 6, 5); (10, 8, 7); (18, 8, 7); (27, 8, 7)].
 Proof. vm_compute. reflexivity. Qed.
+
+(* ---- cycles (Model/Cycle.v): the remembered addresses are the path from the root; above the threshold read from
+   the source an address met again on that path ends the encoding with an error ---- *)
+Definition cycle_threshold : nat := Z.to_nat enc_StartDetectingCyclesAfter.
+
+(* on EVERY finite graph of values, cyclic or not, the recursion ends within threshold + nodes + 1 levels:
+   a cyclic value gives the error (or, below the threshold, is never met again), never unbounded recursion *)
+Theorem C08_encoding_returns_on_every_graph : forall succ N root,
+  (forall n c, n < N -> In c (succ n) -> c < N) -> root < N -> encode_graph cycle_threshold succ N root <> WFuel.
+Proof. intros. apply encode_graph_returns; assumption. Qed.
+Print Assumptions C08_encoding_returns_on_every_graph.
+
+(* a value without a cycle is never refused, however deep and however often its parts are shared *)
+Theorem C08_acyclic_value_is_encoded : forall succ N root (rank : nat -> nat),
+  (forall n c, In c (succ n) -> rank c < rank n) -> rank root < N -> encode_graph cycle_threshold succ N root = WOk.
+Proof. intros. eapply encode_graph_acyclic_ok; eassumption. Qed.
+
+Example C08_cycle_ex : encode_graph cycle_threshold (succ_of [[1]; [2]; [0]]) 3 0 = WCycle /\
+                       encode_graph cycle_threshold (succ_of [[1; 2]; [3]; [3]; []]) 4 0 = WOk.
+Proof. vm_compute. split; reflexivity. Qed.
